@@ -250,6 +250,44 @@ def _check_arith(r, mode):
         if not _close(g, want, rtol * max(1.0, float(np.abs(want).max(initial=0)))):
             raise Violation(f'arith-value:{r["op"]}:{"reflected" if refl else "direct"}',
                             f'component {c}: {kind} {r["op"]} {o} ({"reflected" if refl else "direct"}) gives {g.reshape(-1)[:4]} instead of {np.asarray(want).reshape(-1)[:4]}')
+    # differential oracle ("containers behave as component-wise arrays"): every component of the result is, dtype
+    # included, what the same operation gives on that component alone. Python scalars are also replaced by the other
+    # Python scalars that compare equal to them (2 / 2.0 / (2+0j), True / 1 / 1.0, 0.0 / -0.0): the results must follow
+    # the type of the scalar actually passed, whatever was passed before.
+    import jax
+
+    xl = jax.tree.leaves(x)
+    variants = [other]
+    if o in ('py_int', 'py_float', 'py_bool', 'py_complex'):
+        base = complex(other).real if o != 'py_complex' else None
+        if base is not None and float(base).is_integer():
+            variants += [int(base), float(base), complex(base)] + ([True] if base == 1 else [])
+        if r['op'] == '*' :
+            variants += [0.0, -0.0, 0]
+        if r['op'] == '**':
+            variants = [t for t in variants if not isinstance(t, complex)]
+    if refl and o in ('np_f32', 'np_f64', 'np_i32', 'np_0d'):
+        # NumPy's own scalar/array dunder runs first and decides what it hands over to the container's reflected method
+        # (a Python float for np.float32): what the container then returns is not comparable with jax's handling
+        variants = []
+    for vi, ov in enumerate(variants):
+        res_v = res if vi == 0 else must_not_raise(f'arith:{r["op"]}:{type(ov).__name__}', (lambda: f(ov, x)) if refl else (lambda: f(x, ov)))
+        ol = jax.tree.leaves(ov) if o == 'same' else None
+        for ci, (c, g) in enumerate(zip(kind.lower(), jax.tree.leaves(res_v))):
+            oc = ol[ci] if ol is not None else ov
+            with np.errstate(all='ignore'):
+                direct = f(oc, xl[ci]) if refl else f(xl[ci], oc)
+            if g.dtype != direct.dtype or g.shape != direct.shape:
+                raise Violation(f'arith-componentwise-dtype:{r["op"]}',
+                                f'component {c}: {kind}[{dt}] {r["op"]} {ov!r} ({type(ov).__name__}, {"reflected" if refl else "direct"}) '
+                                f'gives {g.dtype}{g.shape}; the same operation on the component alone gives {direct.dtype}{direct.shape}')
+            if not np.array_equal(np.asarray(g), np.asarray(direct), equal_nan=True) or \
+                    not np.array_equal(np.signbit(np.asarray(g).real), np.signbit(np.asarray(direct).real)):
+                raise Violation(f'arith-componentwise-value:{r["op"]}',
+                                f'component {c}: {kind}[{dt}] {r["op"]} {ov!r} ({type(ov).__name__}, {"reflected" if refl else "direct"}) '
+                                f'gives {np.asarray(g).reshape(-1)[:4]}; the same operation on the component alone gives {np.asarray(direct).reshape(-1)[:4]}')
+    if len(variants) > 1:
+        classes.append('equal_scalars_of_other_types')
     nontrivial = (refl and r['op'] in ('-', '/', '**')) or (o == 'same' and r['op'] in ('-', '/', '**'))
     if dt == 'int32':
         classes.append('integer_container')
@@ -472,6 +510,11 @@ def _check_helper(r, mode):
         want = sum(np.vdot(a, b) for a, b in zip(lx_, ly_))
         if not _close(got, want, 1e-5 * max(1.0, abs(want))):
             raise Violation('dot-value', f'{complex(got)} instead of {complex(want)}')
+        # the same object on both sides (squared norm): still Hermitian, i.e. real and equal to sum |leaf|^2
+        got2 = must_not_raise('dot', ft.dot, jx, jx)
+        want2 = sum(np.vdot(a, a) for a in lx_)
+        if not _close(got2, want2, 1e-5 * max(1.0, abs(want2))):
+            raise Violation('dot-value:same-object', f'dot(x, x) gives {complex(got2)} instead of {complex(want2)}')
         cplx = any(dt.kind == 'c' for _, dt in flat_specs)
         if cplx:
             classes.append('complex')
